@@ -151,6 +151,7 @@ fn build_compare_op(
                     trait __AssertFieldsEq {
                         fn _f(__this: &Self);
                     }
+                    #[automatically_derived]
                     #[allow(clippy::double_parens)]
                     #[allow(unused_parens)]
                     #allow_deprecated
